@@ -5,7 +5,7 @@ From Coq Require Import ZArith Bool List.
 Import ListNotations.
 From Verif Require Import Model.Val Gen.Src_Task Gen.Src_TaskGraph Model.TaskGraph
   Proofs.TaskGraphP Proofs.TaskGraphP1 Proofs.TaskGraphP2 Proofs.TaskGraphP3 Proofs.TaskGraphP5
-  Proofs.TaskGraphP4 Proofs.TaskGraphP6 Proofs.TaskGraphP7 Proofs.TaskGraphP8 Proofs.TaskGraphP9.
+  Proofs.TaskGraphP4 Proofs.TaskGraphP6 Proofs.TaskGraphP7 Proofs.TaskGraphP8 Proofs.TaskGraphP9 Proofs.TaskGraphP10.
 Open Scope Z_scope.
 
 (* no starvation: a RELEASED task whose release time has arrived (within the lookahead) is offered *)
@@ -174,6 +174,27 @@ Theorem C18_monitor_children_accepts_model : forall g t fin draw g' rel canc,
   c18_children_check (g, t, rel) = true.
 Proof. exact c18_children_check_accepts_model. Qed.
 Print Assumptions C18_monitor_children_accepts_model.
+
+(* a VIRTUAL task whose parents are all COMPLETED (completion times and its own release time within the
+   horizon) IS offered.  This covers the task that was scheduled ahead of its release, released while
+   SCHEDULED (Task.release leaves _pre_scheduling_state VIRTUAL) and then unscheduled: Task.unschedule
+   returns it to VIRTUAL, but the frontier still offers it (and get_releasable_tasks returns it again) *)
+Theorem C18_offered_after_fallback : forall g o draws fr d' x,
+  tg_schedulable g o draws = Ok (fr, d') -> so_retract o = false ->
+  (forall n, In n (tg_nodes g) -> tg_conditional g n = false) ->
+  In x (tg_nodes g) -> tg_state g x = TS_VIRTUAL -> tg_parents g x <> [] ->
+  (forall p, In p (tg_parents g x) -> tg_state g p = TS_COMPLETED /\
+             t_completion_time (tt_dyn (tg_task g p)) <= so_time o + so_lookahead o) ->
+  t_release_time (tt_dyn (tg_task g x)) <= so_time o + so_lookahead o -> In x fr.
+Proof. exact frontier_offers_virtual_below_completed. Qed.
+Print Assumptions C18_offered_after_fallback.
+Definition c18_fallback : tgraph :=
+  mkTG [(1, [2]); (2, [])]
+       [(1, mk_ttask TS_COMPLETED 0 100 0 5 16 false false (-1) [5]);
+        (2, mk_ttask TS_VIRTUAL 5 100 5 (-1) 16 false false 6 [5])] 16.
+Example C18_offered_after_fallback_example :
+  tg_schedulable c18_fallback (mkSO 6 0 false false None ALL false) [] = Ok ([2], []) /\ tg_releasable c18_fallback = [2].
+Proof. split; vm_compute; reflexivity. Qed.
 
 (* ---- bridges: the hand-written documented forms (used by the monitors) are what the TRANSLATED source
    computes; an edit of the source (any/all, a state tuple) breaks these ---- *)
